@@ -455,6 +455,10 @@ def execute(run):
     binary = build_driver()
     info = driver_info(binary)
     extra = {'circles': info['circles']}
+    # the generator alphabets against the drawing tables of the tree under test
+    keys = set(info['ascii']) | set(info['unicode_properties']) | set(info['unicode_fragments'])
+    run.extra_cov['drawing_characters_of_the_tree'] = len(keys)
+    run.extra_cov['drawing_characters_not_in_the_generator_alphabets'] = ''.join(sorted(keys - set(gen.ASCII_DRAW + gen.UNI_DRAW + gen.UNI_MORE)))
     shards = []
     if run.tier == 'quick':
         plan = [('dense', 16, 1500), ('mutated', 16, 1200), ('crossover', 16, 800), ('unicode', 16, 2200), ('grammar', 16, 2200), ('legend_mix', 16, 1500), ('stress', 16, 12)]
